@@ -423,6 +423,7 @@ def finish(pid, tier, seed, t0, level, coverage, violations, assumptions=None, m
         print("VIOLATION property=%s replay=%s%s" % (pid, path, "" if v.found else " no-failing-input-found"))
     coverage = dict(coverage)
     coverage["known_finding_hits"] = knownhits
+    coverage["code_under_check"] = _repo_state()
     ev = dict(property_id=pid, tier=tier, seed=seed, level=level, coverage=_jsonable(coverage),
               assumptions=assumptions or [], wall_s=round(time.time() - t0, 2), violations=len(real))
     os.makedirs(EVID, exist_ok=True)
@@ -431,6 +432,19 @@ def finish(pid, tier, seed, t0, level, coverage, violations, assumptions=None, m
     print("%s %s: %d evaluations, %d violation(s), %d known-finding hit(s), %.1fs"
           % (pid, tier, coverage.get("evaluations", 0), len(real), sum(knownhits.values()), time.time() - t0))
     return 1 if real else 0
+
+def _repo_state():
+    """which source tree this run was tied to: HEAD commit, uncommitted changes, and a digest of the package sources"""
+    import hashlib, glob
+    def git(*a):
+        try: return subprocess.run(["git", "-C", REPO] + list(a), capture_output=True, text=True, timeout=30).stdout.strip()
+        except Exception: return "?"
+    h = hashlib.sha256()
+    files = sorted(glob.glob(os.path.join(REPO, "fggs", "*.py")) + glob.glob(os.path.join(REPO, "bin", "*.py")))
+    for f in files:
+        with open(f, "rb") as fh: h.update(f[len(REPO):].encode() + b"\0" + fh.read())
+    return dict(path=REPO, head=git("rev-parse", "--short", "HEAD"), modified_files=[l[3:] for l in git("status", "--porcelain", "--untracked-files=no").splitlines()],
+                sources_sha256=h.hexdigest(), source_files=len(files))
 
 TRUSTED_BASE = [
     "Coq 8.16.1 kernel and its bytecode VM (vm_compute); no native_compute",
